@@ -795,6 +795,7 @@ func checkC18(c *Ctx, r *Report) {
 	sepRule(c, r, "C18.SEPJ", false)
 	r.rule("C18.NEST", "every nest() of the reader is matched by unnest() (call or defer) on every path to a successful return of the calling function")
 	nestPairRule(c, r, "C18.NEST")
+	c18Literals(c, r)
 	ws := c.fn("writeString")
 	re := c.fn("(*parser).readEscaped")
 	rv := c.fn("(*parser).readValue")
